@@ -60,6 +60,23 @@ pub fn cases(thorough: bool) -> Vec<ECase> {
     // send window shared by three streams, one of which is reset while acknowledged ranges may sit behind a gap
     add("sendwin6000-reset".into(), &|c| c.client.send_window = Some(6000), plan(vec![StreamPlan { dir: Dir::Uni, len: 12000, chunk: 1000, end: End::Reset { after: 7000, code: 6 } }, sp(Dir::Uni, 8000, 1000), sp(Dir::Uni, 8000, 1000)]), plan(vec![]), vec![], (6, 30));
     add("sendwin2500-reset-late".into(), &|c| c.client.send_window = Some(2500), plan(vec![StreamPlan { dir: Dir::Uni, len: 9000, chunk: 700, end: End::Reset { after: 4200, code: 6 } }, sp(Dir::Bi, 6000, 500)]), plan(vec![]), vec![], (8, 32));
+    // 0-RTT with remembered parameters: after a rejection the new (lower) limits are the credit;
+    // after an acceptance the (higher) new ones. 0-RTT packets themselves are judged in C17.
+    {
+        let remembered_default = crate::checks::c17::remembered(std::time::Instant::now(), &PairCfg::default());
+        let six: Vec<StreamPlan> = (0..6).map(|i| sp(if i % 2 == 0 { Dir::Uni } else { Dir::Bi }, 400 + i * 100, 300)).collect();
+        let ticket = crate::mtls::Ticket { server_params: remembered_default.clone(), secret: [9; 16] };
+        let t2 = ticket.clone();
+        add("0rtt-rejected-lower-limits".into(), &move |c| { c.ticket = Some(t2.clone()); c.accept_early = false; c.server.max_uni = Some(2); c.server.max_bidi = Some(1); c.server.recv_window = Some(3000); c.server.stream_recv_window = Some(900); }, Plan { early: true, early_salt: 0x5a, ..plan(six.clone()) }, Plan { echo_len: Some(50), ..Default::default() }, vec![], (0, 24));
+        let mut small = PairCfg::default();
+        small.server.max_uni = Some(2);
+        small.server.max_bidi = Some(1);
+        small.server.recv_window = Some(3000);
+        small.server.stream_recv_window = Some(900);
+        let remembered_small = crate::checks::c17::remembered(std::time::Instant::now(), &small);
+        let t3 = crate::mtls::Ticket { server_params: remembered_small, secret: [9; 16] };
+        add("0rtt-accepted-higher-limits".into(), &move |c| { c.ticket = Some(t3.clone()); c.accept_early = true; }, Plan { early: true, ..plan(six.clone()) }, Plan { echo_len: Some(50), ..Default::default() }, vec![], (0, 24));
+    }
     let _ = Side::Client;
     v
 }
